@@ -131,7 +131,7 @@ theorem two_mod_le {x y : Nat} (hy : 0 < y) (hyx : y ≤ x) : 2 * (x % y) ≤ x 
   omega
 
 /-- quotient step: the product at least halves, operands stay in range -/
-theorem fallbackStep_measure {N : Nat} {ext : Bool} {s s' : St} (h : fallbackStep N ext s = some s')
+theorem fallbackStep_measure {N : Nat} {ext : Bool} {s s' : St} (h : fallbackStep N K ext s = some s')
     (hy0 : s.y ≠ 0) (hyx : s.y ≤ s.x) (hyM : s.y < M N) :
     2 * (s'.x * s'.y) ≤ s.x * s.y ∧ s'.x < M N ∧ s'.y < M N := by
   have hypos : 0 < s.y := Nat.pos_of_ne_zero hy0
@@ -183,7 +183,7 @@ theorem fallbackStep_measure {N : Nat} {ext : Bool} {s s' : St} (h : fallbackSte
 
 /-- the parts of a Lehmer step -/
 theorem lehmerStep_parts {N : Nat} {ext : Bool} {s s' : St} {bts xtop ytop : Nat}
-    (h : lehmerStep N ext s bts xtop ytop = some s') :
+    (h : lehmerStep N K ext s bts xtop ytop = some s') :
     ∃ a b c d negx negy, reduce64 xtop ytop = some (a, b, c, d) ∧
       dotProduct N ((bts + 63) / 64) a s.x b s.y = some (s'.x, negx) ∧
       dotProduct N ((bts + 63) / 64) c s.x d s.y = some (s'.y, negy) := by
@@ -210,7 +210,7 @@ theorem aux66 {u xtop : Nat} (h1 : u ≤ xtop) (h2 : xtop < 2 ^ 64) : u + 687194
 
 /-- Lehmer step: the product shrinks by 3/4, the new operands are below `2^66 * 2^k` -/
 theorem lehmerStep_measure {N : Nat} {ext : Bool} {s s' : St} {bts xtop ytop k xl yl : Nat}
-    (h : lehmerStep N ext s bts xtop ytop = some s')
+    (h : lehmerStep N K ext s bts xtop ytop = some s')
     (hx : s.x = xtop * 2 ^ k + xl) (hy : s.y = ytop * 2 ^ k + yl) (hxl : xl < 2 ^ k) (hyl : yl < 2 ^ k)
     (hxt : xtop < W) (h63 : 2 ^ 63 ≤ xtop) (hyx : ytop ≤ xtop) (h32 : 2 ^ 32 ≤ ytop)
     (hxs : s.x < W ^ ((bts + 63) / 64)) (hys : s.y < W ^ ((bts + 63) / 64)) :
@@ -291,7 +291,7 @@ theorem top_facts {N x y : Nat} (hyx : y ≤ x) (h64 : 64 ≤ bits x) (hN : bits
 
 /-- every iteration that continues shrinks `x * y` by a factor 3/4 and keeps the operands in range -/
 theorem gcdStep_measure {N : Nat} {ext : Bool} {s0 s' : St}
-    (h : gcdStep N ext s0 = some (.next s')) (hx : s0.x < M N) (hy : s0.y < M N) :
+    (h : gcdStep N K ext s0 = some (.next s')) (hx : s0.x < M N) (hy : s0.y < M N) :
     4 * (s'.x * s'.y) ≤ 3 * (s0.x * s0.y) ∧ s'.x < M N ∧ s'.y < M N := by
   obtain ⟨hyx, hprod, hrange⟩ := swapSt_facts s0
   obtain ⟨hxM, hyM⟩ := hrange (M N) hx hy
@@ -347,7 +347,7 @@ theorem gcdStep_measure {N : Nat} {ext : Bool} {s0 s' : St}
         · simp at h
 
 /-- an iteration whose operands have product `0` returns -/
-theorem gcdStep_zero {N : Nat} {ext : Bool} {s0 s' : St} (h : gcdStep N ext s0 = some (.next s'))
+theorem gcdStep_zero {N : Nat} {ext : Bool} {s0 s' : St} (h : gcdStep N K ext s0 = some (.next s'))
     : s0.x * s0.y ≠ 0 := by
   obtain ⟨_, hprod, _⟩ := swapSt_facts s0
   rw [← hprod]
@@ -366,7 +366,7 @@ theorem gcdStep_zero {N : Nat} {ext : Bool} {s0 s' : St} (h : gcdStep N ext s0 =
 
 /-- more fuel than `f + 1` does not change the result once `x * y * 3^f < 4^f` -/
 theorem gcdLoop_stable {N : Nat} {ext : Bool} : ∀ (f : Nat) (s : St), s.x < M N → s.y < M N →
-    s.x * s.y * 3 ^ f < 4 ^ f → ∀ f', f + 1 ≤ f' → gcdLoop N ext f' s = gcdLoop N ext (f + 1) s := by
+    s.x * s.y * 3 ^ f < 4 ^ f → ∀ f', f + 1 ≤ f' → gcdLoop N K ext f' s = gcdLoop N K ext (f + 1) s := by
   intro f
   induction f with
   | zero =>
@@ -374,7 +374,7 @@ theorem gcdLoop_stable {N : Nat} {ext : Bool} : ∀ (f : Nat) (s : St), s.x < M 
     obtain ⟨f'', rfl⟩ : ∃ f'', f' = f'' + 1 := ⟨f' - 1, by omega⟩
     have hm0 : s.x * s.y = 0 := by simpa using hm
     unfold gcdLoop
-    cases hst : gcdStep N ext s with
+    cases hst : gcdStep N K ext s with
     | none => rfl
     | some st =>
       cases st with
@@ -384,7 +384,7 @@ theorem gcdLoop_stable {N : Nat} {ext : Bool} : ∀ (f : Nat) (s : St), s.x < M 
     intro s hx hy hm f' hf'
     obtain ⟨f'', rfl⟩ : ∃ f'', f' = f'' + 1 := ⟨f' - 1, by omega⟩
     rw [gcdLoop, gcdLoop]
-    cases hst : gcdStep N ext s with
+    cases hst : gcdStep N K ext s with
     | none => rfl
     | some st =>
       cases st with
@@ -423,7 +423,7 @@ theorem fuel_arith (n p : Nat) :
 /-- explicit fuel bound: more fuel than `3 (bits n + bits p) + 1` never changes the result -/
 theorem gcdLoop_fuel {N : Nat} {ext : Bool} {n p : Nat} (hn : n < M N) (hp : p < M N) (f : Nat)
     (hf : 3 * (bits n + bits p) + 1 ≤ f) :
-    gcdLoop N ext f (initSt n p) = gcdLoop N ext (3 * (bits n + bits p) + 1) (initSt n p) :=
+    gcdLoop N K ext f (initSt n p) = gcdLoop N K ext (3 * (bits n + bits p) + 1) (initSt n p) :=
   gcdLoop_stable (3 * (bits n + bits p)) (initSt n p) hn hp (fuel_arith n p) f hf
 
 theorem gcdFuel_ge {N n p : Nat} (hn : n < M N) (hp : p < M N) :
